@@ -33,6 +33,14 @@ type c19Case struct {
 	// PreSplit: after warming up, a used region is split (its server stays healthy) and the
 	// daughters are used, so that the location cache has replaced a region before Close
 	PreSplit bool `json:"pre_split,omitempty"`
+	// Scan (only with Warm): before the state is arranged a scanner is opened on the first region
+	// (one row per response, more rows left in the region), ScanRead rows are read, and it is left
+	// open - with a lease renewer running every ScanRenewMS if that is > 0. ScanNextAfter: Next is
+	// called on it after Close.
+	Scan          bool `json:"scan,omitempty"`
+	ScanRead      int  `json:"scan_read,omitempty"`
+	ScanRenewMS   int  `json:"scan_renew_ms,omitempty"`
+	ScanNextAfter bool `json:"scan_next_after,omitempty"`
 	// ReleaseFirst: release the gate before (true) or after (false) Close runs -
 	// e.g. the dial completes just before or just after
 	ReleaseAfterMS int `json:"release_after_ms"`
@@ -67,6 +75,11 @@ func c19Run(c c19Case) Outcome {
 func c19RunInBubble(c c19Case) (out Outcome) {
 	cl := sim.New("rs1:16020", "rs2:16020", "rs3:16020")
 	cl.AddTable("t", [][]byte{[]byte("m")}, []string{"rs2:16020", "rs3:16020"}, 1000, false)
+	var scanRows []sim.ScanRow
+	for _, k := range []string{"a", "b", "c", "d", "e", "f", "g"} {
+		scanRows = append(scanRows, sim.ScanRow{Key: []byte(k), Cells: 1})
+	}
+	cl.ScanHandler = sim.NewScanServer(scanRows, nil).Handle
 	client := newSimClient(cl, gohbase.RpcQueueSize(c.Queue), gohbase.FlushInterval(time.Duration(c.FlushMS)*time.Millisecond))
 	stopped := false
 	defer func() {
@@ -91,6 +104,27 @@ func c19RunInBubble(c c19Case) (out Outcome) {
 					return viol("harness", "get after split failed: %v", err)
 				}
 			}
+		}
+	}
+	var openScanner hrpc.Scanner
+	if c.Warm && c.Scan {
+		sopts := []func(hrpc.Call) error{hrpc.NumberOfRows(1)}
+		if c.ScanRenewMS > 0 {
+			sopts = append(sopts, hrpc.RenewInterval(time.Duration(c.ScanRenewMS)*time.Millisecond))
+		}
+		call, err := hrpc.NewScanRange(context.Background(), []byte("t"), nil, nil, sopts...)
+		if err != nil {
+			return viol("harness", "NewScanRange: %v", err)
+		}
+		openScanner = client.Scan(call)
+		for i := 0; i < c.ScanRead; i++ {
+			if _, err := openScanner.Next(); err != nil {
+				return viol("harness", "scan Next %d before Close failed: %v", i, err)
+			}
+		}
+		out.Labels = append(out.Labels, "scanner_open_at_close")
+		if c.ScanRenewMS > 0 {
+			out.Labels = append(out.Labels, "scanner_with_lease_renewer")
 		}
 	}
 	// arrange the state
@@ -323,6 +357,31 @@ func c19RunInBubble(c c19Case) (out Outcome) {
 		}
 	}
 
+	// a scanner left open: Next on it returns promptly too
+	if openScanner != nil && c.ScanNextAfter {
+		done := make(chan error, 1)
+		go func() {
+			var err error
+			for i := 0; i < 3 && err == nil; i++ { // (the first may be served from rows already fetched)
+				_, err = openScanner.Next()
+			}
+			done <- err
+		}()
+		synctest.Wait()
+		time.Sleep(100 * time.Millisecond)
+		synctest.Wait()
+		select {
+		case err := <-done:
+			if err == nil {
+				return viol("scan-continues-after-close", "a scanner left open across Close still fetched 3 further rows afterwards")
+			}
+		default:
+			stack := firstGohbaseStack(gohbaseGoroutines(), "Next")
+			go func() { <-done }()
+			return viol("late-call-blocked", "Next on a scanner left open across Close was still blocked 100ms later at:\n%s", stack)
+		}
+	}
+
 	// quiescence: let back-offs elapse, then nothing may be open or happening
 	time.Sleep(5 * time.Minute)
 	synctest.Wait()
@@ -374,6 +433,12 @@ func c19Gen(t *rapid.T) c19Case {
 	c.PreSplit = c.Warm && rapid.Bool().Draw(t, "presplit")
 	c.Twice = rapid.SampledFrom([]string{"", "", "seq", "concurrent"}).Draw(t, "twice")
 	c.ReleaseAfterMS = rapid.SampledFrom([]int{0, 0, 1, 10, 500}).Draw(t, "release")
+	if c.Warm && rapid.IntRange(0, 2).Draw(t, "scan") == 0 {
+		c.Scan = true
+		c.ScanRead = rapid.IntRange(1, 3).Draw(t, "scanread")
+		c.ScanRenewMS = rapid.SampledFrom([]int{0, 5, 1000, 20000}).Draw(t, "scanrenew")
+		c.ScanNextAfter = rapid.Bool().Draw(t, "scannext")
+	}
 	n := 0
 	l := layoutSpec{Table: "t", Bounds: []evid.B{evid.B("m")}}
 	kinds := []string{"get", "get", "put", "app", "inc"}
@@ -402,7 +467,8 @@ func TestC19_Close(t *testing.T) {
 		"rapid, virtual time: 1..6 concurrent callers (single calls, optionally one SendBatch) over 2 regions on 2 "+
 			"servers are brought into a chosen state - idle, responses held (in flight), ZooKeeper lookup held, meta scan "+
 			"held, dialer entered and held (before/during dial), region probe held, retry back-off, dial refused "+
-			"repeatedly - with or without previously established connections; then Close runs (once, twice, or twice "+
+			"repeatedly - with or without previously established connections, optionally with a scanner left open mid-region "+
+			"(with or without a lease renewer); then Close runs (once, twice, or twice "+
 			"concurrently) and 0/1/10/500 virtual ms later the awaited event happens (the dial completes, ZooKeeper "+
 			"answers...). Oracle: Close takes zero virtual time; every in-flight call returns within 100 virtual ms "+
 			"(a caller inside a back-off sleep: by the end of it) with success or a client-closed error; calls issued "+
